@@ -9,9 +9,16 @@ Vocabulary (defined in CLModel/Merge/Channels.lean):
                        (entity keys, `(comment text, occurrence)` keys, section / instruction keys)
   `AR.specKeys l r`    key sequence of the C20 closed form of `AddRemove` (C20.addRemove_eq_spec / C20.ar_anchor)
 All theorems hold for every list of versions and every entry list: no bound on sizes.
+
+Vocabulary of the re-parse theorem `merge_reparses_properties_partial` (CLModel/Proofs/C02Roundtrip.lean):
+  `P.printProps rs`        the file `key=value⏎` per record (C02)
+  `P.SafeRec (key, value)` non-empty key without `# ! = :` / white-space; value without backslash / newline that neither starts
+                           nor ends in a blank (nor ends in CR) — the class of C02.roundtrip_properties_partial
 -/
 import CLModel.Proofs.C15Text
 import CLModel.Proofs.C15Newest
+import CLModel.Proofs.C15RProps
+import CLModel.Proofs.C15RIni
 namespace C15
 open Merge AR
 
@@ -228,6 +235,68 @@ theorem merge_identical_entries (es : List Ent) (n : Nat) (hk : NodupKeys es) (h
     ∃ d, mergeResources (List.replicate (n + 1) es) = some d ∧ serialize d = (es.map (·.all)).flatten :=
   mergeResources_identical es n hk ha
 
+/-- RE-PARSE, `.properties`, printed safe records.  Take ANY non-empty list of versions (newest first), each printed
+    from safe records with distinct keys (`key=value⏎` per record; the versions may have different keys, values, orders).
+    Then `merge_channels` — the model run end to end: every text parsed by `PropertiesParser.walk`, `merge_resources`,
+    `serialize_legacy_resource` — succeeds, and `PropertiesParser.walk` parses the merged text, WITHOUT JUNK, into exactly
+    one entity per record of a list `recs` (key = the record's key, raw value = value = the record's value, no comment) with:
+    every key at most once; a key occurs iff some version has it; and for every record `r` of version `i` such that no
+    newer version has its key, `r` itself is in `recs` (so, keys being unique, every key carries the value of the newest
+    version having it).
+    Proof route: C02 round trip (the walk of a printed file is known) → in each version's dict every entity is directly
+    followed by a Whitespace object; this shape survives the closed form of `AddRemove`, `prune` and the fold over the
+    versions (`C15R.merged_alt`) → `merged_text`: the text is a sequence of printed records and newlines → `C04R.walk_toks`;
+    which records: `merged_entity_keys`, `newest_text`.
+    FULL statement (not proved): the other formats, comments, blank lines, all legal layouts; entity ORDER of the re-parse
+    (it is the dict order of `order_spec`). -/
+theorem merge_reparses_properties_partial (vers : List (List P.PRec)) (hne : vers ≠ [])
+    (hsafe : ∀ rs ∈ vers, ∀ r ∈ rs, P.SafeRec r) (hnd : ∀ rs ∈ vers, (rs.map (·.1)).Nodup) :
+    ∃ (t : List Nat) (es : List P.Entry) (recs : List P.PRec), mergeTexts .properties (vers.map (fun rs => (P.printProps rs).toArray)) = .ok t ∧
+      P.walk .properties t.toArray = .done es ∧
+      P.entitiesOf .properties t.toArray es = recs.map P.expectedView ∧
+      P.junkOf t.toArray es = [] ∧
+      (recs.map (·.1)).Nodup ∧
+      (∀ k, k ∈ recs.map (·.1) ↔ ∃ rs ∈ vers, k ∈ rs.map (·.1)) ∧
+      (∀ (i : Nat) (rs : List P.PRec) (r : P.PRec), vers[i]? = some rs → r ∈ rs →
+        (∀ j < i, ∀ rs' : List P.PRec, vers[j]? = some rs' → r.1 ∉ rs'.map (·.1)) → r ∈ recs) := by
+  cases vers with
+  | nil => exact absurd rfl hne
+  | cons v vs =>
+    obtain ⟨t, es, d, ht, hd, hwf, hgood, hw, he, hj⟩ := C15R.merge_reparses_core v vs hsafe hnd
+    obtain ⟨h1, h2, h3⟩ := C15R.recs_facts (v :: vs) d hwf hgood hsafe hnd
+      (fun ek => merged_entity_keys _ d hd ek)
+      (fun i es hi hk e hmem hkeyed hfirst => newest_text _ d hd i es hi hk e hmem hkeyed hfirst)
+    exact ⟨t, es, _, ht, hw, he, hj, h1, h2, h3⟩
+
+/-- RE-PARSE, `.ini`, printed safe records.  Every version `[sec]⏎` + `key=value⏎` per record with the SAME section name
+    (`C02X.printIni`; safe ini records, see `C02.roundtrip_ini_partial`), distinct keys per version, none equal to the section
+    name.  Then `merge_channels` succeeds and `IniParser.walk` parses the merged text, WITHOUT JUNK, into the section entry and
+    exactly one entity per record of a list `recs` with: every key at most once; a key occurs iff some version has it; the
+    record of the newest version having a key is in `recs`.
+    Additional step: the merged dict starts with the newest version's section entry (`C15R.merged_head`) and holds no other
+    (dict keys are unique).  FULL statement (not proved): versions without / with several / with different sections, comments,
+    blank lines. -/
+theorem merge_reparses_ini_partial (sec : List Nat) (vers : List (List P.PRec)) (hne : vers ≠ [])
+    (hsec : ∀ c ∈ sec, c ≠ 93 ∧ c ≠ 10)
+    (hsafe : ∀ rs ∈ vers, ∀ r ∈ rs, C02X.SafeIniRec r) (hnd : ∀ rs ∈ vers, (sec :: rs.map (·.1)).Nodup) :
+    ∃ (t : List Nat) (es : List P.Entry) (recs : List P.PRec),
+      mergeTexts .ini (vers.map (fun rs => (C02X.printIni sec rs).toArray)) = .ok t ∧
+      P.walk .ini t.toArray = .done es ∧
+      P.entitiesOf .ini t.toArray es = recs.map P.expectedView ∧
+      P.junkOf t.toArray es = [] ∧
+      (recs.map (·.1)).Nodup ∧
+      (∀ k, k ∈ recs.map (·.1) ↔ ∃ rs ∈ vers, k ∈ rs.map (·.1)) ∧
+      (∀ (i : Nat) (rs : List P.PRec) (r : P.PRec), vers[i]? = some rs → r ∈ rs →
+        (∀ j < i, ∀ rs' : List P.PRec, vers[j]? = some rs' → r.1 ∉ rs'.map (·.1)) → r ∈ recs) := by
+  cases vers with
+  | nil => exact absurd rfl hne
+  | cons v vs =>
+    obtain ⟨t, es, d, S, d', ht, hd, hde, hwf, hgood, hw, he, hj⟩ := C15R.merge_reparses_ini_core sec hsec v vs hsafe hnd
+    obtain ⟨h1, h2, h3⟩ := C15R.recs_facts_ini sec (v :: vs) d S d' hde hwf hgood hnd
+      (fun ek => merged_entity_keys _ d hd ek)
+      (fun i es hi hk e hmem hkeyed hfirst => newest_text _ d hd i es hi hk e hmem hkeyed hfirst)
+    exact ⟨t, es, _, ht, hw, he, hj, h1, h2, h3⟩
+
 /-- Unsupported file types are refused explicitly: when no pattern of `parser.__constructors` matches the
     file name, `merge_channels` raises MergeNotSupportedError whatever the resources are. -/
 theorem unsupported_refused (name : List Nat) (texts : List (Array Nat)) (h : getParserClass name = none) :
@@ -320,6 +389,88 @@ example : (mergeTwo
       (versionDict 1 [{ kind := .junk, ekey := .junk 1 0, val := [], all := [63], oid := (0, 0) }])).map (·.2.all)
     = [[63], [63]] := by
   rw [mergeTwo_eq _ _ (versionDict_wf _ _) (versionDict_wf _ _)]
+  decide
+
+/-! ### re-parse theorem: non-vacuity and negation witnesses -/
+
+/-- the hypotheses of `merge_reparses_properties_partial` hold for three versions, newest first: `a=1 ⏎ b=2 ⏎`,
+    `b=9 ⏎ x=o p ⏎ a=1 ⏎` (reordered, another value for `b`, a key only it has) and `c=3 ⏎` -/
+example :
+    ∃ (t : List Nat) (es : List P.Entry) (recs : List P.PRec), mergeTexts .properties ([[([97], [49]), ([98], [50])], [([98], [57]), ([120], [111, 32, 112]), ([97], [49])],
+        [([99], [51])]].map (fun rs => (P.printProps rs).toArray)) = .ok t ∧
+      P.walk .properties t.toArray = .done es ∧
+      P.entitiesOf .properties t.toArray es = recs.map P.expectedView ∧
+      P.junkOf t.toArray es = [] ∧ (recs.map (·.1)).Nodup ∧
+      [99] ∈ recs.map (·.1) ∧ [100] ∉ recs.map (·.1) ∧
+      ([98], [50]) ∈ recs ∧ ([120], [111, 32, 112]) ∈ recs := by
+  obtain ⟨t, es, recs, h1, h2, h3, h4, h5, h6, h7⟩ := merge_reparses_properties_partial
+    [[([97], [49]), ([98], [50])], [([98], [57]), ([120], [111, 32, 112]), ([97], [49])], [([99], [51])]] (by simp)
+    (by
+      intro rs hrs r hr
+      simp at hrs
+      rcases hrs with rfl | rfl | rfl <;> simp at hr
+      · rcases hr with rfl | rfl <;> constructor <;> simp [P.propsKeyChar]
+      · rcases hr with rfl | rfl | rfl <;> constructor <;> simp [P.propsKeyChar]
+      · subst hr; constructor <;> simp [P.propsKeyChar])
+    (by intro rs hrs; simp at hrs; rcases hrs with rfl | rfl | rfl <;> decide)
+  refine ⟨t, es, recs, h1, h2, h3, h4, h5, ?_, ?_, ?_, ?_⟩
+  · rw [h6]
+    exact ⟨[([99], [51])], by simp, by simp⟩
+  · rw [h6]
+    rintro ⟨rs, hrs, hk⟩
+    simp at hrs
+    rcases hrs with rfl | rfl | rfl <;> simp at hk
+  · exact h7 0 _ _ rfl (by simp) (by intro j hj; omega)
+  · exact h7 1 _ _ rfl (by simp) (by
+      intro j hj rs' hrs'
+      have : j = 0 := by omega
+      subst this
+      simp at hrs'
+      subst hrs'
+      decide)
+
+/-- NEGATION WITNESS for `vers ≠ []`: `reduce` of an empty sequence -/
+example : mergeTexts .properties [] = .error .emptySequence := rfl
+
+/-- NEGATION WITNESS for "distinct keys per version" (`hnd`): `a=1 ⏎ a=2 ⏎` as the only version is serialised as
+    `a=2 ⏎ ⏎` (the `NodupKeys` witness above): the record `a=1` of version 0, which no newer version overrides, is not in
+    the merge.  For the hypotheses on keys and values (`hsafe`) see the witnesses of `C02.roundtrip_properties_partial`
+    (a value ending in a blank is stripped, a value ending in a backslash swallows the next line, …) and, for a version
+    ending in a comment without final newline, the witness of `C16.serialize_reparses_properties_partial`. -/
+example : ¬ ((([([97], [49]), ([97], [50])] : List P.PRec).map (·.1)).Nodup) := by decide
+
+/-- `merge_reparses_ini_partial`, non-vacuity: two versions under `[S]`, newest `a=1 ⏎`, older `b= 2 ⏎ a=0 ⏎` -/
+example :
+    ∃ (t : List Nat) (es : List P.Entry) (recs : List P.PRec),
+      mergeTexts .ini ([[([97], [49])], [([98], [32, 50]), ([97], [48])]].map (fun rs => (C02X.printIni [83] rs).toArray)) = .ok t ∧
+      P.walk .ini t.toArray = .done es ∧
+      P.entitiesOf .ini t.toArray es = recs.map P.expectedView ∧
+      P.junkOf t.toArray es = [] ∧ (recs.map (·.1)).Nodup ∧ ([97], [49]) ∈ recs ∧ ([98], [32, 50]) ∈ recs := by
+  obtain ⟨t, es, recs, h1, h2, h3, h4, h5, _, h7⟩ := merge_reparses_ini_partial [83]
+    [[([97], [49])], [([98], [32, 50]), ([97], [48])]] (by simp) (by decide)
+    (by
+      intro rs hrs r hr
+      simp at hrs
+      rcases hrs with rfl | rfl <;> simp at hr
+      · subst hr; constructor <;> simp
+      · rcases hr with rfl | rfl <;> constructor <;> simp)
+    (by intro rs hrs; simp at hrs; rcases hrs with rfl | rfl <;> decide)
+  refine ⟨t, es, recs, h1, h2, h3, h4, h5, ?_, ?_⟩
+  · exact h7 0 _ _ rfl (by simp) (by intro j hj; omega)
+  · exact h7 1 _ _ rfl (by simp) (by
+      intro j hj rs' hrs'
+      have : j = 0 := by omega
+      subst this
+      simp at hrs'
+      subst hrs'
+      decide)
+
+/-- NEGATION WITNESS for "no key equals the section name": `IniSection.key` shares the dict with the entity keys; for the
+    single version `[a]⏎ a=1 ⏎` the dict keeps the entity at the position of the section — the header is lost
+    (`merge_channels("x.ini", [b"[a]\na=1\n", …])` of the real code drops it too, see NOTES-C15) -/
+example :
+    serialize (versionDict 0 [{ kind := .section, ekey := .str [97], val := [], all := [91, 97, 93], oid := (0, 0) },
+      w [10], e 97 [97, 61, 49], w [10]]) = [97, 61, 49, 10, 10] := by
   decide
 
 end C15
